@@ -728,6 +728,9 @@ pub mod forwarder {
         ForgedReply { n: u8 },
         /// let the request time-out pass
         WaitTimeout,
+        /// client c asks for an echo to 127.0.0.1 with 65508 + (over % 28) data bytes: no IPv4
+        /// packet can carry it, the raw socket refuses it (EMSGSIZE) and nothing leaves
+        EchoUnsendable { c: u8, over: u8 },
     }
 
     #[derive(Serialize, Deserialize, Debug, Clone)]
@@ -988,12 +991,31 @@ pub mod forwarder {
         let mut got: Vec<Vec<Reply>> = vec![vec![], vec![], vec![]];
         let mut expected: Vec<Vec<Reply>> = vec![vec![], vec![], vec![]];
         let mut seq = 0u16;
+        // clients whose request could not be sent: the endpoint may end their stream (nothing in the
+        // property keeps it open), so they take no further part
+        let mut retired = [false; 3];
         // identifiers unique to this process and case, so that parallel workers ignore each other
         let id_base = nonce | 0x8000;
         let _ = raw.drain();
 
         for (step, op) in c.ops.iter().enumerate() {
+            let actor = match op {
+                Op::Echo { c, .. } | Op::EchoSilent { c, .. } | Op::Echo6 { c, .. } | Op::EchoUnsendable { c, .. } => Some(*c as usize % 3),
+                _ => None,
+            };
+            if actor.is_some_and(|a| retired[a]) {
+                continue;
+            }
             match op {
+                Op::EchoUnsendable { c, over } => {
+                    let ci = *c as usize % 3;
+                    seq = seq.wrapping_add(1);
+                    let id = id_base ^ (ci as u16);
+                    let size = 65_508u16 + (*over as u16 % 28);
+                    let rec = icmp::encode_request(&icmp::Request { id, destination: IpAddr::V4(Ipv4Addr::LOCALHOST), seq, ttl: 64, data_size: size });
+                    clients[ci].send.send_data(Bytes::from(rec), false).map_err(|e| herr(e.to_string()))?;
+                    retired[ci] = true;
+                }
                 Op::Echo { .. } | Op::EchoSilent { .. } => {
                     let (ci, dest, size, silent, ttl) = match op {
                         Op::Echo { c, host, size, ttl } => (*c as usize % 3, Ipv4Addr::new(127, 0, 0, 1 + host % 250), *size % 1200, false, (*ttl).max(1)),
@@ -1092,7 +1114,7 @@ pub mod forwarder {
                     got[ci].push(r);
                 }
                 let dead = cl.closed.lock().unwrap().clone();
-                ensure!(dead.is_none(), "icmp:multiplexer-terminated", "step {}: client {} lost its stream: {:?}", step, ci, dead);
+                ensure!(dead.is_none() || retired[ci], "icmp:multiplexer-terminated", "step {}: client {} lost its stream: {:?}", step, ci, dead);
             }
             // nothing a client receives may be unexpected for that client
             for ci in 0..3 {
@@ -1138,6 +1160,9 @@ pub mod forwarder {
             }
         }
         for ci in 0..3 {
+            if retired[ci] {
+                continue; // its stream may have been ended with replies still to come
+            }
             for e in &expected[ci] {
                 if e.source == IpAddr::V4(Ipv4Addr::UNSPECIFIED) {
                     continue; // optional
@@ -1170,7 +1195,7 @@ pub mod forwarder {
             "forwarder-histories"
         }
         fn rule(&self) -> String {
-            "three clients with CONNECT _icmp streams (HTTP/2 in memory) on one real IcmpForwarder bound to lo (raw ICMP sockets, kernel echo replies); histories of 3-12 operations: echo to 127.0.0.x with a generated TTL (64, 1, 255, any) and data size, echo to a silent address, ICMPv6 echo to ::1 with a generated hop limit (sniffed on a raw ICMPv6 socket with IPV6_RECVHOPLIMIT), forged destination-unreachable / time-exceeded quoting the n-th request (sniffed from the wire) with 0-200 payload bytes or completely, errors about a request nobody sent, truncated errors, forged (possibly late) echo replies, waiting past the request time-out (400 ms); oracle: every request to 127.0.0.x is seen on the wire exactly once with the requested TTL, destination, identifier, sequence number and data size and a verifying checksum; every reply / error about a pending request reaches exactly the requesting client with the responder's address, type, code, id and seq, once per packet; nothing else is reported to anybody; the waiter table is empty after the time-out; non-trivial = two clients with pending requests at the same time".into()
+            "three clients with CONNECT _icmp streams (HTTP/2 in memory) on one real IcmpForwarder bound to lo (raw ICMP sockets, kernel echo replies); histories of 3-12 operations: echo to 127.0.0.x with a generated TTL (64, 1, 255, any) and data size, echo to a silent address, ICMPv6 echo to ::1 with a generated hop limit (sniffed on a raw ICMPv6 socket with IPV6_RECVHOPLIMIT), forged destination-unreachable / time-exceeded quoting the n-th request (sniffed from the wire) with 0-200 payload bytes or completely, errors about a request nobody sent, truncated errors, forged (possibly late) echo replies, waiting past the request time-out (400 ms), an echo of 65508-65535 data bytes that the raw socket refuses with EMSGSIZE (that client takes no further part: its stream may be ended); oracle: every request to 127.0.0.x is seen on the wire exactly once with the requested TTL, destination, identifier, sequence number and data size and a verifying checksum; every reply / error about a pending request reaches exactly the requesting client with the responder's address, type, code, id and seq, once per packet; nothing else is reported to anybody; the waiter table is empty after the time-out; non-trivial = two clients with pending requests at the same time".into()
         }
         fn strategy(&self, _: Tier) -> BoxedStrategy<Case> {
             let op = prop_oneof![
@@ -1183,6 +1208,7 @@ pub mod forwarder {
                 1 => any::<u8>().prop_map(|cut| Op::Malformed { cut }),
                 2 => any::<u8>().prop_map(|n| Op::ForgedReply { n }),
                 1 => Just(Op::WaitTimeout),
+                1 => (0u8..3, any::<u8>()).prop_map(|(c, over)| Op::EchoUnsendable { c, over }),
             ];
             prop::collection::vec(op, 3..=12).prop_map(|ops| Case { ops }).boxed()
         }
@@ -1211,6 +1237,9 @@ pub mod forwarder {
             }
             if c.ops.iter().any(|o| matches!(o, Op::Echo6 { .. })) {
                 v.push("icmpv6");
+            }
+            if c.ops.iter().any(|o| matches!(o, Op::EchoUnsendable { .. })) {
+                v.push("request-the-socket-refuses");
             }
             let ttls: Vec<u8> = c.ops.iter().filter_map(|o| if let Op::Echo { ttl, .. } = o { Some(*ttl) } else { None }).collect();
             if ttls.windows(2).any(|w| w[0] != w[1]) {
